@@ -39,6 +39,12 @@ CLAIMED = {
  "C16": ("exploration", "seeded simulation of insert/insert_weighted histories with every compaction schedule; conservation of count/sum/mean/min/max/is_empty against running totals at every read",
          "Conservation invariant under every compaction schedule the backlog knob and read positions produce; weights across 12 orders of magnitude, zero weights, deltas from 1.1 (total fusion) to 1000.",
          "Relative 1e-9 accumulation tolerance scaled by sum |x| w."),
+ "C09": ("exploration", "seeded streams aimed at the pruning tick (an element re-appears on the add right after it was pruned; counts equal to the window number), black-box oracles for no-miss / no-intruder / add return value / table bound at every prefix",
+         "Refinement of the stated guarantees over generated streams; the only schedule-like choice is where occurrences fall relative to the pruning tick every width adds, which two of the seven stream shapes target and a probe counts.",
+         "Threshold comparisons carry a 1e-9*n guard band on the lenient side; long streams are checked at tick-adjacent and every 17th prefix instead of all."),
+ "C10": ("exploration", "seeded streams over sketches from 1x1 (everything collides) to collision-free, shadow CountMinSketch supplying the largest overestimate E at every prefix, under catch_unwind with debug assertions enabled",
+         "Reference-model checking of iter() (cardinality, distinctness, membership, the k-others-within-E condition) and of panic freedom at every prefix; collisions are provoked by table shape because CMSHeap fixes the default hasher.",
+         "CMSHeap offers no hasher seam; E is taken from a shadow sketch of identical parameters, which is bit-identical to the inner one."),
 }
 
 PENDING = {}
